@@ -178,8 +178,10 @@ def main():
     m = ref_model()
     hm = AutoQKHyperModel(m, metrics=["acc"], target=target, limit=dict({k: list(v) for k, v in LIMIT.items()}),
                           layer_indexes=None, quantization_config=TABLE, tune_filters="none", tune_filters_exceptions="")
+    nsize = 0                               # every selection table meets every kind of model
     for plan in rnd2.sample(plans, 6):
       for manual in (0, 1, 2):
+        nsize += 1 if manual else 2         # (7 tables per plan: the assignment of tables to model kinds rotates)
         hp = StubHP({(s, r): c for (s, r, _), c in zip(slots, plan)})
         hm.groups = {}                      # as AutoQKHyperModel.build does before every trial
         qm, _ = hm.quantize_model(hp)
@@ -197,7 +199,7 @@ def main():
         # per-class component selection: an explicitly empty list switches a class off, "parameters" only counts weights
         cfgsel = [{"default": ["parameters", "activations"]},
                   {"default": ["parameters", "activations"], "InputLayer": [], "QActivation": [], "Activation": []},
-                  {"default": ["parameters"], "QDense": ["parameters", "activations"], "Dense": ["parameters", "activations"]}][(len(events) + int(manual > 0)) % 3]
+                  {"default": ["parameters"], "QDense": ["parameters", "activations"], "Dense": ["parameters", "activations"]}][nsize % 3]
         tb = ForgivingFactorBits(8, 8, 2, config=cfgsel)
         try:
           total = tb.compute_model_size(qm)[0]
